@@ -28,6 +28,9 @@ struct Mon {
     states: Vec<CcState>,
     latch_toggled: bool,
     reached_floor_after_seed: bool,
+    /// when a lost packet (a NAK) was last fed to this link; loss average of the previous snapshot
+    last_loss_fed: Option<u64>,
+    prev_loss: Option<f64>,
 }
 
 /// Check one tick's snapshot against the previous one. `observed` is the
@@ -35,6 +38,14 @@ struct Mon {
 fn monitor(m: &mut Mon, s: &LinkCcSnapshot, observed: u64, now: u64, who: &str) -> CheckResult {
     vensure!((FLOOR..=CEIL).contains(&s.target_bps), "target-range", "{who}: target {} outside [100k, 200M]", s.target_bps);
     vensure!(s.loss_ewma.is_finite() && (0.0..=1.0).contains(&s.loss_ewma), "loss-ewma-range", "{who}: loss average {} not in [0,1]", s.loss_ewma);
+    // honest: the loss average is an average over a 1 s window of fed (sent, lost) samples; while nothing lost was
+    // fed for 2.5 s (counter restarts are not losses) it can only decay
+    if let Some(pl) = m.prev_loss
+        && m.last_loss_fed.is_none_or(|t| now.saturating_sub(t) > 2_500)
+    {
+        vensure!(s.loss_ewma <= pl + 1e-12, "loss-without-naks", "{who}: loss average rose {} -> {} although no lost packet was fed to this link for {:?} ms", pl, s.loss_ewma, m.last_loss_fed.map(|t| now - t));
+    }
+    m.prev_loss = Some(s.loss_ewma);
     if !m.states.contains(&s.state) {
         m.states.push(s.state);
     }
@@ -172,7 +183,11 @@ pub fn check_state(case: &StCase, obs: &mut Obs) -> CheckResult {
             m.rtt_fed = true;
         }
         if t.sent > 0 || t.lost > 0 {
-            st.record_loss(t.sent as u32, lost_of(t.lost, t.sent), now);
+            let lost = lost_of(t.lost, t.sent);
+            st.record_loss(t.sent as u32, lost, now);
+            if lost > 0 {
+                m.last_loss_fed = Some(now);
+            }
         }
         let observed = observed_for(t.obs, st.target_bps, steady);
         st.tick(observed, now);
@@ -288,6 +303,9 @@ pub fn check_ctl(case: &CtlCase, obs: &mut Obs) -> CheckResult {
                 c.register_packet(seq, now);
                 c.handle_nak(seq, now);
                 seq += 1;
+            }
+            if li.naks > 0 {
+                mons.entry(c.conn_id).or_default().last_loss_fed = Some(now);
             }
             let cur_target = mons.get(&c.conn_id).and_then(|m| m.prev).map(|p| p.1).unwrap_or(FLOOR);
             let ob = observed_for(li.obs, cur_target, 2_000_000);
